@@ -42,8 +42,8 @@ type machine struct {
 	noWL    bool
 
 	// non-triviality bookkeeping
-	reopened, evicting, ovCommitShadow, seekOnDirty, getDuringIter, forked bool
-	stratum                                                                string
+	reopened, evicting, ovCommitShadow, seekOnDirty, getDuringIter, forked, refused bool
+	stratum                                                                         string
 }
 
 func (m *machine) top() *layer { return m.stack[len(m.stack)-1] }
@@ -382,9 +382,24 @@ func (m *machine) treeCommit(t *rapid.T) {
 	}
 }
 
+// treeCommitRefused: a commit that the node database refuses (into the version that is already finalized). The tree must
+// go on behaving like the map - nothing written so far is lost or changed - and a later commit stores all of it.
+func (m *machine) treeCommitRefused(t *rapid.T) {
+	if len(m.stack) != 1 || m.version == 0 {
+		t.Skip("overlays open / nothing finalized yet")
+	}
+	if _, _, err := m.base.Commit(ctx, kv.Namespace, m.version); err == nil {
+		// (an unchanged tree may be "committed" again into its own version: the root exists)
+		m.log("commit into finalized v%d accepted (root exists)", m.version)
+		return
+	}
+	m.refused = true
+	m.log("commit into finalized v%d refused", m.version)
+}
+
 const rule = "case = rapid state machine: one tree on a node database (both backends, generated cache capacity stratum, write log on/off) and a stack of 0-3 overlays created exactly as Context.NewTransaction does; " +
 	"actions on the top object: insert, remove, remove-existing; reads on any layer: get, iterator Rewind/Seek (present, absent, prefix, extension, before-first, after-last keys) + Next with gets interleaved; " +
-	"overlay push / commit (directly or via Copy) / discard / fork (Copy with both sides kept open and written); tree commit+finalize with optional close and reopen at the committed root with a new capacity; universe 1-40 prefix-heavy keys. " +
+	"overlay push / commit (directly or via Copy) / discard / fork (Copy with both sides kept open and written); tree commit+finalize with optional close and reopen at the committed root with a new capacity; a commit the database REFUSES (into the finalized version) after which the tree goes on; universe 1-40 prefix-heavy keys. " +
 	"oracle = reference ordered map per layer: every result, and after every action a full scan and a get of every universe key on every layer; root after each commit equals the reference root. " +
 	"non-trivial = (commit+reopen or evicting capacity) AND an overlay commit over a key present in its parent AND a Seek to a key written/removed in that overlay; distinct = hash of the action trace"
 
@@ -442,25 +457,26 @@ func TestC03OrderedMap(t *testing.T) {
 				}
 			}()
 			t.Repeat(map[string]func(*rapid.T){
-				"insert":         m.insert,
-				"insert2":        m.insert,
-				"remove":         m.remove,
-				"removeExisting": m.removeExisting,
-				"get":            m.get,
-				"iterate":        m.iterate,
-				"push":           m.push,
-				"ovCommit":       m.ovCommit,
-				"ovDiscard":      m.ovDiscard,
-				"ovFork":         m.ovFork,
-				"treeCommit":     m.treeCommit,
-				"":               func(*rapid.T) { m.fullCheck() },
+				"insert":            m.insert,
+				"insert2":           m.insert,
+				"remove":            m.remove,
+				"removeExisting":    m.removeExisting,
+				"get":               m.get,
+				"iterate":           m.iterate,
+				"push":              m.push,
+				"ovCommit":          m.ovCommit,
+				"ovDiscard":         m.ovDiscard,
+				"ovFork":            m.ovFork,
+				"treeCommit":        m.treeCommit,
+				"treeCommitRefused": m.treeCommitRefused,
+				"":                  func(*rapid.T) { m.fullCheck() },
 			})
 		}()
 		nt := (m.reopened || m.evicting) && m.ovCommitShadow && m.seekOnDirty
 		for _, l := range []struct {
 			on   bool
 			name string
-		}{{m.reopened, "commit+reopen"}, {m.evicting, "evicting-capacity"}, {m.ovCommitShadow, "overlay-commit-over-parent-key"},
+		}{{m.reopened, "commit+reopen"}, {m.refused, "commit-refused-then-continued"}, {m.evicting, "evicting-capacity"}, {m.ovCommitShadow, "overlay-commit-over-parent-key"},
 			{m.seekOnDirty, "seek-on-overlay-written-key"}, {m.getDuringIter, "get-during-iteration"}, {m.forked, "overlay-forked-with-copy"}, {m.noWL, "without-writelog"}} {
 			if l.on {
 				rec.Label(l.name)
